@@ -230,7 +230,7 @@ def generate(repo):
         k = kind_of[s]
         if k not in all_kinds:
             raise ExtractError(f"{s}: kind {k} is not a SyntaxKind")
-        o.append(f"def {s}.kind : SyntaxKind := .{k}")
+        o.append(f"def {s}.syntaxKind : SyntaxKind := .{k}")
         o.append(f"def {s}.canCast (k : SyntaxKind) : Bool := k == .{k}")
     o.append("\n/-- struct name of a node kind (the name the typed-AST dump prints) -/")
     o.append("def structName : SyntaxKind → Option String")
